@@ -485,3 +485,21 @@ PROPS["C20"] = dict(
                  "the reference encoder in the unit (most significant byte plane first, PackBits per G.3.1) is the oracle"],
     uncovered=["images larger than the bound", "malformed fragments (C05)"],
 )
+
+# ----------------------------------------------------------------------- C09
+PROPS["C09"] = dict(
+    level="proof",
+    units=[
+        V("C09.group_length", "c09_group_length.vrs",
+          "FileMetaTable::calculate_information_group_length == sum over the elements of PS3.10 Table 7.1-1 present in the table of "
+          "(Explicit VR LE header size + even-padded value length): OB version 12+2, four UIs 8+n, optional SH/AE/AE/AE/UI 8+n, "
+          "optional private information OB 12+n; dicom_len == even(byte length)",
+          expected_verified=5),
+    ],
+    assumptions=["string byte lengths are abstract (Verus has no str byte reasoning); strings <= 65535 bytes, private information < 2 GiB (preconditions)",
+                 "header sizes 8 (UI, SH, AE) and 12 (OB) are those proved for the real Explicit VR LE encoder in C03",
+                 "closure postconditions are ghost annotations inserted by a declared rewrite that carries the constant found in the code into the annotation"],
+    uncovered=["that update_information_group_length / the builder store this value, and that FileMetaTable::write emits exactly these bytes "
+               "(writer pipeline: DataSetWriter, not within reach)", "reading the group back (equality), attribute operations on the table",
+               "preamble detection when opening files"],
+)
